@@ -174,11 +174,11 @@ INS_OPTIONS = [
     ("draw_iid_live=False", {"draw_iid_live": False}, {}, True),
     ("n_update=10", {"n_update": 10}, {}, False),
     ("n_update=10,max_iteration=None", {"n_update": 10, "max_iteration": None}, {}, False),
-    ("max_samples=61,max_iteration=None", {"max_samples": 61, "max_iteration": None}, {}, False),
     ("max_iteration=None", {"max_iteration": None}, {}, False),
     # known not to terminate without an iteration cap: thorough tier only, short wall cap
     ("nlive=200,n_update=20,max_iteration=None", {"nlive": 200, "min_samples": 50, "n_update": 20, "max_iteration": None}, {}, "thorough"),
     ("max_samples=61,min_samples=60,max_iteration=None", {"max_samples": 61, "min_samples": 60, "max_iteration": None}, {}, "thorough"),
+    ("max_samples=61,max_iteration=None", {"max_samples": 61, "max_iteration": None}, {}, "thorough"),
     ("checkpointing=True", {"checkpointing": True, "checkpoint_on_iteration": True, "checkpoint_interval": 1, "save_existing_checkpoint": True}, {}, False),
     ("save=True,result_extension=json", {"result_extension": "json"}, {"save": True}, False),
     ("plot_training=True", {"plot": True, "plot_training": True}, {}, False),
